@@ -10,14 +10,19 @@ def run(ctx):
 
     import partcontract
     partcontract.run_partition_contract(ctx)
+    import morsel                      # X03 "Morsel" sub-model (checks/morsel.py)
+    morsel.run_sub(ctx)
 
 
 def replay(ctx, obj):
     if obj.get("case", {}).get("kind") == "partition_contract":
         import partcontract
         return partcontract.replay_partition_contract(ctx, obj)
+    if obj.get("case", {}).get("kind") == "morsel":
+        import morsel
+        return morsel.replay_sub(ctx, obj)
     sqlcheck.replay_sql(ctx, obj)
 
 def selftest(ctx):
-    import partcontract
-    return partcontract.selftest_partition_contract(ctx) or sqlprop.selftest(ctx, [])
+    import partcontract, morsel
+    return partcontract.selftest_partition_contract(ctx) or morsel.selftest_sub(ctx) or sqlprop.selftest(ctx, [])
